@@ -143,9 +143,9 @@ struct Env {
     devs: DevSet,
 }
 
-fn body(ch: &Chooser, env: &Env, streams: &[usize]) -> Outcome {
+fn body(ch: &Chooser, env: &Env, streams: &[usize], layouts: &[Option<usize>]) -> Outcome {
     let which = *ch.pick_free("stream", streams);
-    let layout = *ch.pick_free("layout", &LAYOUTS);
+    let layout = *ch.pick_free("layout", layouts);
     let mut protos = stream::base_stream(which);
     let mut taken = Vec::new();
     for p in protos.iter_mut() {
@@ -509,12 +509,13 @@ fn main() {
         // streams: single, multi, pairs, pairs-special
         if ctx.quick() {
             let env = Env { refs: refs.clone(), complete_up_to: 24, devs: DevSet::GEOMETRY };
-            ctx.harness(Config::new("layouts_regions_k1", 1), |ch| body(ch, &env, &[0, 1, 2, 3]));
+            ctx.harness(Config::new("layouts_regions_k1", 1), |ch| body(ch, &env, &[0, 1, 2, 3], &LAYOUTS));
         } else {
             let env = Env { refs: refs.clone(), complete_up_to: 60, devs: DevSet::GEOMETRY };
-            ctx.harness(Config::new("layouts_regions_k1_complete60", 1), |ch| body(ch, &env, &[0, 1, 2, 3]));
+            ctx.harness(Config::new("layouts_regions_k1_complete60", 1), |ch| body(ch, &env, &[0, 1, 2, 3], &LAYOUTS));
             let env2 = Env { refs: refs.clone(), complete_up_to: 24, devs: DevSet::GEOMETRY };
-            ctx.harness(Config::new("layouts_regions_k2", 2), |ch| body(ch, &env2, &[0, 1]));
+            ctx.harness(Config::new("layouts_regions_k2_multi", 2), |ch| body(ch, &env2, &[1], &[None, Some(2)]));
+            ctx.harness(Config::new("layouts_regions_k2_single", 2), |ch| body(ch, &env2, &[0], &[Some(1), Some(3)]));
         }
     });
 }
